@@ -110,11 +110,11 @@ def check_inputs_unchanged(res, case, arrs, before):
 
 
 def soft(res, where, case, impl, ref):
-    """Something the property TEXT does not state (behaviour on malformed input, exact exception classes, API results that are not part of
-    the encoding, values of derived conveniences) differs from an independent reference: reported like a model/implementation disagreement --
-    the tie is broken, `no-failing-input-found` -- never as a violation with a concrete replay (HARDENING_CHECKLIST item 14)."""
-    res.count("reference-only." + where)
-    res.disagree("C01:reference:" + where, {"case": case}, str(impl)[:600], str(ref)[:600])
+    """Behaviour the property TEXT does not state -- the ExperimentSpace query API, derived scalar properties, Screen.combine / concat beyond
+    what C01's clauses imply for the resulting screen, single_treatment_effects, what happens on malformed input, exception classes -- differs
+    from the reference: an ADVISORY (res.advise), printed and written into the evidence; it never makes the check fail, because the property as
+    stated would still hold."""
+    res.advise("outside the text of C01: " + where, case, str(impl)[:600], str(ref)[:600], signature="C01:ext:" + where)
 
 
 def map_sig(tm):
@@ -481,7 +481,10 @@ def api_stream(ctx, res, rng, queue):
         case = {"kind": "api:" + kind, "ctrl": ctrl, "tmap": tm, "smap": sm, "names_dtype": "object" if ndt is object else "str"}
         res.evaluations += 1
         res.count("api." + kind)
-        api_case(res, case, es, ctrl, tm, sm, produced, queue)
+        try:
+            api_case(res, case, es, ctrl, tm, sm, produced, queue)
+        except Exception as e:      # noqa: BLE001
+            soft(res, "api:raises", case, "%s: %s" % (type(e).__name__, e), "answers")
 
 
 def api_case(res, case, es, ctrl, tm, sm, produced, queue=None):
@@ -496,16 +499,13 @@ def api_case(res, case, es, ctrl, tm, sm, produced, queue=None):
         except Exception as e:      # noqa: BLE001
             return ("err", S.err_tok(e))
 
-    HARD = ("ids-of-name", "inverse", "id-from-name:present", "name-from-id:present")
-
     def fail(what, observed, required, sig):
         # the property text covers the decode direction of the encoding for mappings batchie produced: ids of a name, name <-> id of
         # PRESENT samples. Everything else (doses / type counts, hand-made mappings, what happens for absent names, exception classes)
         # is compared with the reference and the model only.
-        if produced and sig in HARD:
-            res.fail(what, case, observed, required, signature="C01:api:" + sig)
-        else:
-            soft(res, "api:" + sig, case, {"what": what, "observed": observed}, required)
+        # the query API is an extension of the model beyond the text of C01 (which speaks about the screen's ids, its mappings and the
+        # experiment-space SIZES): advisory only
+        soft(res, "api:" + sig, case, {"what": what, "observed": observed}, required)
 
     counts = call(lambda: (int(es.n_unique_treatments), int(es.n_unique_samples), int(es.n_unique_treatment_types), int(es.n_unique_doses)))
     if counts[0] != "ok":
@@ -591,7 +591,7 @@ def combine_case(res, case, raws, queue=None):
     except Exception as e:      # noqa: BLE001
         t, out = None, S.err_tok(e)
     if t is None and must_ok:
-        res.fail("combine / concat of compatible screens raises", case, out, "a screen", signature="C01:combine:raises")
+        soft(res, "combine:raises-on-compatible", case, out, "a screen")
     if t is not None and not must_ok:
         soft(res, "combine:incompatible-accepted", case, out[:200], "ValueError")
     if t is not None and must_ok:
@@ -604,7 +604,7 @@ def combine_case(res, case, raws, queue=None):
             oracle(res, case, craw, t)          # every cell of the union decodes, fresh dense ids, control sentinel
     for p, b in zip(parts, before):
         if (rows_sig(p), S.show_screen(p)) != b:
-            res.fail("combine / concat changed one of its operands", case, S.show_screen(p)[:200], b[1][:200], signature="C01:combine:operand-mutated")
+            soft(res, "combine:operand-mutated", case, S.show_screen(p)[:200], b[1][:200])
     if queue is not None:
         toks = " ".join(S.raw_to_tokens(r) for r in raws)
         queue(("combine " + toks) if case["kind"] == "combine" else ("concat %d %s" % (len(raws), toks)).strip(), out, case)
@@ -637,7 +637,10 @@ def combine_stream(ctx, res, rng, queue):
         case = {"kind": kind, "raws": raws, "mode": mode}
         res.evaluations += 1
         res.count("combine.%s.%s" % (kind, mode))
-        combine_case(res, case, raws, queue)
+        try:
+            combine_case(res, case, raws, queue)
+        except Exception as e:      # noqa: BLE001
+            soft(res, "combine:raises", case, "%s: %s" % (type(e).__name__, e), "a result")
 
 
 # ---------------------------------------------------------------- HARDENING_CHECKLIST items 10, 12, 13
@@ -667,6 +670,14 @@ def _canon(x):
     return x
 
 
+def guarded(f, res, case, *a):
+    """an exception escaping from Screen(...) / ExperimentSpace on valid input is a violation (no screen is constructed)"""
+    try:
+        f(res, case, *a)
+    except Exception as e:      # noqa: BLE001
+        res.fail("constructing / saving on valid input raises", case, "%s: %s" % (type(e).__name__, e), "a screen", signature="C01:raises:" + case["kind"])
+
+
 def temporaries_class(ctx, res, rng, queue):
     """item 10: results obtained from TEMPORARIES (built, used once, dropped -- CPython hands the freed address to the next one) must be those of
     retained objects: screens / experiment spaces of one shape but different content in a loop, only the result kept"""
@@ -682,7 +693,7 @@ def temporaries_class(ctx, res, rng, queue):
         case = {"kind": "temporaries", "raws": raws}
         res.evaluations += 1
         res.count("class.temporaries")
-        temporaries_case(res, case, raws)
+        guarded(temporaries_case, res, case, raws)
 
 
 def temporaries_case(res, case, raws):
@@ -723,7 +734,7 @@ def instalments_class(ctx, res, rng, tmpdir):
         case = {"kind": "instalments", "raws": raws}
         res.evaluations += 1
         res.count("class.instalments")
-        instalments_case(res, case, raws, tmpdir)
+        guarded(instalments_case, res, case, raws, tmpdir)
 
 
 def instalments_case(res, case, raws, tmpdir):
@@ -743,9 +754,8 @@ def instalments_case(res, case, raws, tmpdir):
         got = view_props(scr)
         diff = sorted(k for k in set(ref) | set(got) if ref.get(k) != got.get(k))
         if diff:
-            res.fail("the union built in instalments differs from the same rows built in one Screen(...) call (ids / mappings / rows, by introspection)",
-                     case, {"how": nm, "properties": diff, "got": str(got.get(diff[0]))[:300]}, str(ref.get(diff[0]))[:300], signature="C01:instalments:combine")
-            return
+            soft(res, "instalments:combine-vs-one-call", case, {"how": nm, "properties": diff, "got": str(got.get(diff[0]))[:300]}, str(ref.get(diff[0]))[:300])
+            break
     # save twice to the same path: first the space of part 0, then the space of the union
     path = os.path.join(tmpdir, "twice.h5")
     first, second = ExperimentSpace.from_screen(parts[0]), ExperimentSpace.from_screen(step)
@@ -810,17 +820,22 @@ def int_width_class(ctx, res, rng, tmpdir, queue):
         res.evaluations += 1
         res.count("class.int-width")
         res.count("class.int-width.%s-%d" % (what, m))
-        s = S.build(raw)
-        oracle(res, case, raw, s)
-        sp = space_oracle(res, case, raw, s, tmpdir, True)
-        queue("mkscreen " + S.raw_to_tokens(raw), S.show_screen(s), case)
-        queue("espace " + S.raw_to_tokens(raw), sp, dict(case, kind="int-width:espace"))
+        try:
+            s = S.build(raw)
+            oracle(res, case, raw, s)
+            sp = space_oracle(res, case, raw, s, tmpdir, True)
+            queue("mkscreen " + S.raw_to_tokens(raw), S.show_screen(s), case)
+            queue("espace " + S.raw_to_tokens(raw), sp, dict(case, kind="int-width:espace"))
+        except Exception as e:      # noqa: BLE001
+            res.fail("constructing / saving on valid input raises", case, "%s: %s" % (type(e).__name__, e), "a screen", signature="C01:raises:int-width")
 
 
 
 # the property text: "a supplied mapping is followed verbatim (or rejected if it does not cover the data or is not dense)";
 # the other malformed inputs (masks, lengths) are compared with the model only
 MAPPING_CLAUSES = ("bad-tmap-gap", "tmap-missing", "smap-missing", "smap-gap")
+# driver ops of the model's extension beyond the text of C01 (Model/ScreenApi.lean): their ties are advisory
+EXT_OPS = ("spaceapi", "derived", "ste", "combine", "concat")
 
 
 def run(ctx, res):
@@ -889,12 +904,15 @@ def run(ctx, res):
                 expect.append(sp)
                 cases.append(dict(case, kind=kind + ":espace"))
                 if kind != "exhaustive":
-                    lines.append("derived " + S.raw_to_tokens(raw))
-                    expect.append(derived_oracle(res, case, raw, s))
-                    cases.append(dict(case, kind=kind + ":derived"))
-                    lines.append("ste " + S.raw_to_tokens(raw))
-                    expect.append(ste_oracle(res, case, s))
-                    cases.append(dict(case, kind=kind + ":ste"))
+                    for op, fn in (("derived", lambda: derived_oracle(res, case, raw, s)), ("ste", lambda: ste_oracle(res, case, s))):
+                        try:
+                            tok = fn()
+                        except Exception as e:      # noqa: BLE001 -- extension: advisory
+                            soft(res, op + ":raises", case, "%s: %s" % (type(e).__name__, e), "a value")
+                            continue
+                        lines.append(op + " " + S.raw_to_tokens(raw))
+                        expect.append(tok)
+                        cases.append(dict(case, kind=kind + ":" + op))
                 cells = [(nm, d) for rn, rd in zip(raw["tnames"], raw["tdoses"]) for nm, d in zip(rn, rd)]
                 nctl = sum(1 for nm, d in cells if nm == raw["ctrl"] or d <= 0)
                 nn = len(set((nm, d) for nm, d in cells if not (nm == raw["ctrl"] or d <= 0)))
@@ -1004,7 +1022,14 @@ def run(ctx, res):
         got = ctx.driver.ask(lines)
         for l, e, g, c in zip(lines, expect, got, cases):
             if e != g:
-                res.disagree("C01:%s:%s" % (l.split(" ")[0], c["kind"]), {"line": l}, e[:600], g[:600])
+                op = l.split(" ")[0]
+                if op in EXT_OPS or c["kind"].startswith("malformed"):
+                    # ties of the extension ops, and what exactly happens on malformed input (the acceptance of a non-dense / non-covering
+                    # mapping is an oracle of its own): advisory
+                    res.advise("outside the text of C01: model and implementation disagree (%s, %s)" % (op, c["kind"]), {"line": l[:1500]}, e[:600], g[:600],
+                               signature="C01:ext-tie:" + op + (":malformed" if c["kind"].startswith("malformed") else ""))
+                else:
+                    res.disagree("C01:%s:%s" % (op, c["kind"]), {"line": l}, e[:600], g[:600])
         res.traces_validated += len(lines)
 
 
